@@ -314,6 +314,17 @@ type listenerDec struct {
 func (l *listenerDec) Decor(decor.Statistics) (string, int) { return l.Format(l.text) }
 func (l *listenerDec) OnShutdown() {
 	tick()
+	if l.ord%2 == 0 {
+		// a listener may look at its own bar (e.g. to log the final count): the
+		// getters are documented to work while a bar shuts down and afterwards
+		if b := l.rr.bar(l.bar); b != nil {
+			_ = b.Current()
+			_ = b.Aborted()
+			_ = b.Completed()
+			_ = b.IsRunning()
+			_ = b.ID()
+		}
+	}
 	atomic.AddInt32(&l.rr.listenerCalls[l.bar][l.ord], 1)
 }
 
